@@ -20,6 +20,7 @@ static unsigned long long OUT_TOTAL; static uint64_t OUT_HASH;     /* all bytes 
 static char TR[TR_MAX]; static size_t TRN;
 static int tc_flushes, tc_nerr, tc_errs[64];
 static int tc_log_flush = 1;
+static size_t tc_heap_len = 64;      /* static info heap size (heap configuration only) */
 
 static void tr_add(const void * p, size_t n) { if (TRN + n < TR_MAX) { memcpy(TR + TRN, p, n); TRN += n; } else TRN = TR_MAX - 1; TR[TRN] = 0; }
 static void tr_printf(const char * fmt, ...) {
@@ -54,7 +55,7 @@ static void tc_init(tc_t * t, const scpi_command_t * cmds, size_t ibuf_len, int 
     memset(t->ering, 0, sizeof (scpi_error_t) * (size_t) ering_len);
     SCPI_Init(&t->ctx, cmds, &tc_itf, scpi_units_def, "MANUF", "MODEL", NULL, "REV", t->ibuf, ibuf_len, t->ering, (int16_t) ering_len);
 #if USE_DEVICE_DEPENDENT_ERROR_INFORMATION && !USE_MEMORY_ALLOCATION_FREE
-    t->heap_len = 64; t->heap = (char *) mc_xalloc(t->heap_len);
+    t->heap_len = tc_heap_len; t->heap = (char *) mc_xalloc(t->heap_len);
     SCPI_InitHeap(&t->ctx, t->heap, t->heap_len);
 #endif
 }
